@@ -191,18 +191,25 @@ def harnesses(tier):
         ops = [i for i, o in enumerate(OPS) if o != 'do AddData(d2)']
         modes, omodes = ['ReplaceMode', 'AndMode', 'NewMode'], ['OrMode', 'AndNotMode']
     else:
+        # depth 5 with three edit modes / two override modes, and (below) depth 4 with every mode
         k, inits = 5, (0, 1, 2)
-        ops, modes, omodes = list(range(len(OPS))), MODES, MODES
-    for f in ops:
+        ops, modes, omodes = list(range(len(OPS))), ['ReplaceMode', 'AndMode', 'NewMode'], ['OrMode', 'AndNotMode']
+    configs = [(k, modes, omodes)] + ([(4, MODES, MODES)] if tier == 'thorough' else [])
+    for (k, modes, omodes) in configs:
+      allm = len(modes) == len(MODES)
+      for f in ops:
         for ini in inits:
             if not _applicable(ini, f):
                 continue
             for ed in ((0, 1) if ini > 0 else (0,)):
-              hs.append(Harness('k=%d init=%d edit=%d first=%s' % (k, ini, ed, OPS[f]), body,
+              if allm and (ini, ed) != (1, 1):
+                  continue
+              hs.append(Harness('k=%d%s init=%d edit=%d first=%s' % (k, ' all-modes' if allm else '', ini, ed, OPS[f]), body,
                               params=dict(k=k, first=f, initial=ini, ops=ops, modes=modes, omodes=omodes, edit=ed), max_paths=5000000,
                               wall_s=3400, weight=3,
                               bounds=dict(steps=k, operations=[OPS[i] for i in ops], edit_modes=modes, override_modes=omodes,
                                           datasets=NDATA, initial_state=ini, first=OPS[f])))
+    k, modes, omodes = configs[0]
     # a single dataset that carries a group: a selection, then any 3 [4] further steps (every dataset can leave and come back)
     for f in ops:
         if OPS[f].startswith('do Apply'):
